@@ -214,7 +214,10 @@ def r1(ctx, kind):
 
 def r2(ctx, kind, fn, env):
     c = ctx.crate
-    lets = [s for s in walk(fn["body"]) if s.get("k") == "let" and s["pat"].get("k") == "bind" and s["pat"]["name"] == "gradient"]
+    # the gradient: the one local bound to a `match` over the two tensors' data (whatever it is called; a later re-binding that applies
+    # the clamp is R06.4's business)
+    lets = [s for s in walk(fn["body"]) if s.get("k") == "let" and s["pat"].get("k") == "bind" and s.get("init") is not None and strip(s["init"]).get("k") == "match"
+            and strip(strip(s["init"])["scrut"]).get("k") == "tup" and all(".data" in pretty(x_) for x_ in strip(strip(s["init"])["scrut"])["xs"])]
     if len(lets) != 1 or strip(lets[0]["init"]).get("k") != "match":
         raise Unestablished("%s::loss: no `let gradient = match ..`" % kind, c.loc(fn))
     m = strip(lets[0]["init"])
